@@ -85,6 +85,23 @@ def fam_items(rng):
     return dump, vals
 
 
+def fam_formats(rng):
+    """formatted strings whose checkers go through library and interpreter state shared by all threads (registries, warning
+    filters): every spelling a checker accepts, rejects, or only warns about"""
+    fmt = rng.choice(["date-time", "date-time", "uuid", "unknown-fmt"])
+    leaf = {"cls": rng.choice(["String", "Element"]), "kw": {"format": fmt}}
+    dump = rng.choice([leaf, {"cls": "Array", "kw": {"itemsKind": "single"}, "items": [leaf]},
+                       {"cls": "Element", "kw": {"hasProps": True}, "props": [[{"name": "when", "source": "when"}, leaf]]}])
+    strings = ["2021-03-04T10:00:00Z", "2021-03-04 10:00 BRST", "2021-03-04T10:00:00 AEDT", "2021-03-04 10:00 NZDT", "2021-03-04T10:00:00+02:00",
+               "not a date", "10:00 EST", "123e4567-e89b-12d3-a456-426614174000", "123E4567E89B12D3A456426614174000", ""]
+    picks = [rng.choice(strings) for _ in range(5)]
+    if dump is leaf:
+        return dump, picks
+    if dump["cls"] == "Array":
+        return dump, [[x] for x in picks] + [picks[:3]]
+    return dump, [{"when": x} for x in picks]
+
+
 def fam_deep(rng):
     """deeply nested values: many calls are in flight at once while a thread is suspended"""
     def nest(depth, leaf):
@@ -138,6 +155,18 @@ def explore(builder, per_thread, out, stats, case, rng, n_sched, finding=None):
             segs.append((t, rng.randint(1, max(1, max(lines) // 3))))
             t = (t + rng.randint(1, len(per_thread) - 1)) % len(per_thread) if len(per_thread) > 1 else 0
         schedules.append(segs)
+    # preemptions placed inside brackets (`with` blocks, swapped settings): thread 0 is stopped inside one, then another thread
+    # is run until it is inside one of its own (or to completion), then thread 0 goes on
+    if len(per_thread) > 1:
+        pts = [sched.bracket_points(calls_worker(builder(), v)) for v in per_thread]
+        if pts[0]:
+            stats["bracket-schedules"] = stats.get("bracket-schedules", 0) + 1
+            for _ in range(min(8, 2 + len(pts[0]))):
+                k0 = rng.choice(pts[0])
+                other = rng.randrange(1, len(per_thread))
+                k1 = rng.choice(pts[other]) if pts[other] and rng.random() < 0.7 else 10 ** 9
+                extra = rng.choice([1, 2, 3, 5, 10 ** 9])
+                schedules.append([(0, k0), (other, k1), (0, extra), (other, 10 ** 9)])
     for segs in schedules:
         tree = builder()
         before = safe_dump(tree)
@@ -225,7 +254,7 @@ def run(ctx, scale=1.0):
     n_sched = N_SCHED[ctx["tier"]]
     vg, dg, sg = ValueGen(rng), dsl.DumpGen(rng), SchemaGen(rng, titled=True)
     for i in range(n_scen):
-        fam = ["dump", "class", "defaults", "additional", "items", "parsed", "defaults", "additional", "deep"][i % 9]
+        fam = ["dump", "class", "defaults", "additional", "items", "parsed", "defaults", "additional", "deep", "formats"][i % 10]
         stats["family-" + fam] = stats.get("family-" + fam, 0) + 1
         n_threads = rng.choice([2, 2, 3])
         if fam == "defaults":
@@ -236,6 +265,8 @@ def run(ctx, scale=1.0):
             dump, vals = fam_items(rng)
         elif fam == "deep":
             dump, vals = fam_deep(rng)
+        elif fam == "formats":
+            dump, vals = fam_formats(rng)
         elif fam == "parsed":
             schema = sg.schema(3)
             kind, el = core.real_parse(schema)
